@@ -2,6 +2,7 @@ import Propka.Model.Pipeline
 import Propka.Model.TopUp
 import Propka.Model.Pdb
 import Propka.Model.Dets
+import Propka.Model.CoupleSearch
 /-! The program as one function: PDB lines and options in, the records of every group of every conformation out.
     `run` composes the parser model (`Pdb.parse`: `get_atom_lines_from_pdb`), `read_pdb` (conformations in sorted order),
     `top_up_conformations`, the set-up pipeline (`Pipe.prepare`) and the scoring model (`Scoring.score`), as
@@ -48,7 +49,7 @@ def core (a : AtomRec) : AtomRec := { a with serial := 0, occ := "", beta := "" 
 section
 variable {α : Type} [Add α] [Sub α] [Mul α] [Div α] [Neg α] [OfNat α 0] [OfNat α 1] [OfNat α 2]
   [DecidableEq α] [LT α] [LE α] [DecidableLT α] [DecidableLE α] [Max α] [Min α] [NatCast α] [BEq α] [Inhabited α]
-  [Trig α] [Bonds.CellIdx α]
+  [Trig α] [Bonds.CellIdx α] [Profiles.PowLog α]
 
 /-- a parsed atom as the set-up pipeline receives it; `dec` turns a fixed-point coordinate field into a scalar -/
 def toPAtom (dec : Int → Nat → α) (a : AtomRec) : Pipe.PAtom α :=
@@ -98,20 +99,43 @@ structure Scored (α : Type) where
   chain : String             -- `group.atom.chain_id`
   het : Bool                 -- `group.atom.type == 'hetatm'`
   ctg : Option String        -- label of `coupled_titrating_group`
+  starred : Bool             -- `len(non_covalently_coupled_groups) > 0`
   model : α
   nv : α
   buried : α
   grec : Dets.GRec α
 
-def scoredOf (r : Pipe.Prepared α) (outs : List (Scoring.GOut α)) : List (Scored α) :=
-  (r.groups.toList.zip outs).map fun go =>
+/-- the record of every group after scoring, as the coupling search and the averaging read it -/
+def grecsOf (r : Pipe.Prepared α) (outs : List (Scoring.GOut α)) : Array (Dets.GRec α) :=
+  ((r.groups.toList.zip outs).map fun go =>
     let g := go.1
     let o := go.2
     let a := r.atoms.getD g.atom Pipe.PAtom.dflt
+    (⟨g.label, g.model, o.evol, o.eloc, detsOf r o.sc, detsOf r o.bb, detsOf r o.cb, o.pka, a.bridged, []⟩ : Dets.GRec α)).toArray
+
+def staticOf (r : Pipe.Prepared α) : Array (CoupleSearch.Static α) :=
+  (List.range r.groups.size).toArray.map fun k =>
+    match r.groups[k]? with
+    | some g => ⟨partnerId r k, g.q, g.titratable⟩
+    | none => ⟨"", ((0:Nat):α), false⟩
+
+/-- `find_non_covalently_coupled_groups` on a scored conformation -/
+def searchOf (cp : CoupleSearch.CP α) (r : Pipe.Prepared α) (outs : List (Scoring.GOut α)) : CoupleSearch.St α :=
+  CoupleSearch.identify cp (staticOf r) (grecsOf r outs)
+
+def scoredOf (cp : CoupleSearch.CP α) (r : Pipe.Prepared α) (outs : List (Scoring.GOut α)) : List (Scored α) :=
+  let st := searchOf cp r outs
+  ((r.groups.toList.zip outs).zipIdx).map fun gok =>
+    let g := gok.1.1
+    let o := gok.1.2
+    let k := gok.2
+    let a := r.atoms.getD g.atom Pipe.PAtom.dflt
+    let dg : Dets.GRec α := ⟨g.label, g.model, o.evol, o.eloc, [], [], [], o.pka, a.bridged, []⟩
     { resLabel := atomLabel a, type := g.type, resType := g.resType, label := g.label,
       use := g.titratable || (g.resType == "CYS" && !g.excludeCys), chain := a.chain, het := a.het,
-      ctg := o.ctg.bind fun c => (r.groups[c]?).map (·.label), model := g.model, nv := ((o.nv : Nat) : α), buried := o.buried,
-      grec := ⟨g.label, g.model, o.evol, o.eloc, detsOf r o.sc, detsOf r o.bb, detsOf r o.cb, o.pka, a.bridged, []⟩ }
+      ctg := o.ctg.bind fun c => (r.groups[c]?).map (·.label), starred := !(st.coupled.getD k []).isEmpty,
+      model := g.model, nv := ((o.nv : Nat) : α), buried := o.buried,
+      grec := st.gs.getD k dg }
 
 /-- a group of the average conformation -/
 structure AvrGroup (α : Type) where
@@ -121,6 +145,7 @@ structure AvrGroup (α : Type) where
   chain : String
   het : Bool
   ctg : Option String
+  starred : Bool
   model : α
   nv : α
   buried : α
@@ -155,7 +180,7 @@ def averageOf (confs : List (List (Scored α))) : List (AvrGroup α) :=
       if acc.any (fun e => e.1.resLabel == g.resLabel && e.1.type == g.type) then acc
       else
         let found := confs.filterMap fun c => findGroup c g
-        acc ++ [(g, { label := g.label, type := g.type, resType := g.resType, chain := g.chain, het := g.het, ctg := g.ctg, model := g.model,
+        acc ++ [(g, { label := g.label, type := g.type, resType := g.resType, chain := g.chain, het := g.het, ctg := g.ctg, starred := g.starred, model := g.model,
                       nv := Dets.avgScalar z (found.map (·.nv)), buried := Dets.avgScalar z (found.map (·.buried)),
                       acc := averageL z (found.map (·.grec)) })]) acc) []).map (·.2)
 
@@ -176,8 +201,8 @@ def run (P : Pipe.PP α) (sp : Scoring.SP α) (dec : Int → Nat → α) (po : P
   | .ok recs => if recs.isEmpty then .error .valueError else .ok (afterParse P sp dec o recs)
 
 /-- the average conformation of a run (`none` when the set-up of a conformation raised) -/
-def averageRun (outs : List (ConfOut α)) : Option (List (AvrGroup α)) :=
-  (outs.mapM fun (c : ConfOut α) => c.2.map fun ro => scoredOf ro.1 ro.2).map averageOf
+def averageRun (cp : CoupleSearch.CP α) (outs : List (ConfOut α)) : Option (List (AvrGroup α)) :=
+  (outs.mapM fun (c : ConfOut α) => c.2.map fun ro => scoredOf cp ro.1 ro.2).map averageOf
 end
 
 end Propka.Program
